@@ -110,7 +110,11 @@ func init() {
 			panic(engineErr("parser.ParseFile: no parse result registered for " + path))
 		}
 		if e, isI := r.err.(Iface); isI && e.T != nil {
-			return Tuple{(*Value)(nil), r.err}
+			// like go/parser: the (possibly partial) AST is returned together with the error
+			if r.file == nil {
+				return Tuple{(*Value)(nil), r.err}
+			}
+			return Tuple{r.file, r.err}
 		}
 		return Tuple{r.file, nilError()}
 	})
